@@ -23,7 +23,10 @@ CheckNormal(r) == (r.eok => r.dok) /\ ((r.eok /\ r.dok /\ r.n > 0) =>
 CheckNormalTiny(r) == (r.eok /\ r.dok /\ r.n > 0) => r.worst_angle_tiny_u <= r.bound_u
 FunDep(obs) == \A a \in 1..Len(obs) : \A b \in 1..Len(obs) :
                   (obs[a][1] = obs[b][1] /\ obs[a][2] = obs[b][2]) => obs[a][3] = obs[b][3]
-CheckExplicit(r) == (\A j \in 1..Len(r.tiles_ok) : r.tiles_ok[j]) =>
+\* tiles_enc[j] => tiles_ok[j]: a tile that was encoded decodes (also with an unrelated attribute's transform skipped)
+CheckExplicit(r) ==
+  /\ \A j \in 1..Len(r.tiles_ok) : r.tiles_enc[j] => r.tiles_ok[j]
+  /\ (\A j \in 1..Len(r.tiles_ok) : r.tiles_ok[j]) =>
     /\ FunDep(r.obs)                                  \* equal coordinate + equal parameters => equal decoded value, whatever the tile / method
     /\ r.worst_grid_u <= r.allow_u                    \* on the grid origin + k*range/(2^bits-1) of the CALLER's parameters
     /\ r.params_exact                                 \* the grid a decoder dequantises with IS the caller's: origin, range and bits are stored bit for bit
